@@ -563,6 +563,7 @@ type Contract struct {
 	ModeSet    bool
 	Requires   []Clause
 	Ensures    []Clause
+	Asserts    []Clause // proved at a program point (source-line anchor)
 	Modifies   []ModTarget
 	ModNothing bool
 	ModGiven   bool
@@ -633,7 +634,7 @@ type UFDecl struct {
 }
 
 var clauseKeywords = map[string]bool{"ghoststruct": true, "guarded": true, "uf": true, "pred": true,"func": true, "lemma": true, "interface": true, "property": true, "mode": true,
-	"requires": true, "ensures": true, "modifies": true, "inline": true, "trusted": true, "loop": true, "invariant": true,
+	"requires": true, "ensures": true, "assert": true, "modifies": true, "inline": true, "trusted": true, "loop": true, "invariant": true,
 	"decreases": true, "maypanic": true, "forall": false, "ghost": true, "method": true, "assume": true, "vars": true, "nosafety": true, "pure": true, "witness": true, "wraps": true,
 	"atomic": true, "rely": true, "guarantee": true, "addassume": true}
 
@@ -882,6 +883,17 @@ func (db *SpecDB) loadFile(path, pkg string, assumed bool) error {
 				return fmt.Errorf("%s:%d: %v", path, rc.line, err)
 			}
 			curL.Vars = append(curL.Vars, ps...)
+		case "assert":
+			// "assert [label @ source snippet #n] expr": proved where execution reaches the
+			// first instruction of a source line containing the snippet
+			cl, err := mkClause(rc)
+			if err != nil {
+				return err
+			}
+			if curC == nil || cl.At == "" {
+				return fmt.Errorf("%s:%d: assert needs a func and an anchor [label @ snippet]", path, rc.line)
+			}
+			curC.Asserts = append(curC.Asserts, cl)
 		case "requires", "ensures":
 			cl, err := mkClause(rc)
 			if err != nil {
